@@ -806,6 +806,9 @@ def run_compare(
     sample_names = get_sample_names(
         vcf_readers, requested_sample=sample, ignore_name=ignore_sample_name
     )
+    # Calls of the samples that are not compared need not have the ploidy of the compared one
+    for reader, sample_name in zip(vcf_readers, sample_names):
+        reader.samples_of_interest = {sample_name}
 
     with ExitStack() as stack:
         tsv_pairwise_file = tsv_multiway_file = longest_block_tsv_file = switch_error_bedfile = None
